@@ -553,6 +553,24 @@ func (d *Driver) Run() error {
 		if resp.Crashed || resp.Hang || !sameDig(post, d.ref) || d.ballooned(f) {
 			pre = d.restore(post, resp.Crashed || resp.Hang || d.ballooned(f))
 		}
+		// transport framing is not part of a request's meaning: every ninth case with a body is sent once more
+		// without a Content-Length (chunked), from the same state, and judged by the same catalogue entry
+		if c.Cid%9 == 4 && len(w.Body) > 0 && sameDig(pre, d.ref) && !resp.Crashed && !resp.Hang {
+			w2 := w
+			w2.Hdr = map[string]string{ChunkedHdr: "1"}
+			for k, v := range w.Hdr {
+				w2.Hdr[k] = v
+			}
+			resp2, post2, f2 := d.observe(w2, pre)
+			f2["cid"], f2["ep"], f2["var"], f2["p"], f2["k"], f2["a"], f2["s"], f2["enc"] = c.Cid, c.Ep, c.Var, c.P, c.K, c.A, c.S, c.Enc
+			f2["chunked"] = 1
+			d.tw.Emit("CaseChunked", f2)
+			d.Stats["chunked"]++
+			pre = post2
+			if resp2.Crashed || resp2.Hang || !sameDig(post2, d.ref) || d.ballooned(f2) {
+				pre = d.restore(post2, resp2.Crashed || resp2.Hang || d.ballooned(f2))
+			}
+		}
 	}
 	if d.o.Rand > 0 {
 		if err := d.runRandom(pre); err != nil {
